@@ -4,6 +4,7 @@ import (
 	"bytes"
 	"fmt"
 	"io"
+	"math"
 	"math/big"
 	"testing/iotest"
 
@@ -102,6 +103,10 @@ type faultOnce struct{ error }
 
 var readerKinds = []string{"plain", "onebyte", "half", "dataerr", "timeout", "custom"}
 
+// bigScript is the event script of the reader kind "bigscript" (directed cases with ~2^20 bytes of data, where a
+// per-byte script would be a huge term): tiny, half, large, larger-than-any-buffer and odd chunks, then bytes.Reader.
+var bigScript = []evt{{kind: 'g', n: 1}, {kind: 'h'}, {kind: 'g', n: 524288}, {kind: 'g', n: 1 << 40}, {kind: 'h'}, {kind: 'g', n: 7}, {kind: 'g', n: 4099}}
+
 // mkReader returns the reader, the model's event script (a Coq term) and a function giving the consumed count.
 func mkReader(kind string, data []byte, r *vx.Rng) (io.Reader, string, func() int, io.ReadSeeker) {
 	d := exact(data)
@@ -111,10 +116,10 @@ func mkReader(kind string, data []byte, r *vx.Rng) (io.Reader, string, func() in
 		return br, "([]:list ev)", br.BytesRead, br
 	case "onebyte":
 		cr := &countReader{r: iotest.OneByteReader(bytes.NewReader(d))}
-		return cr, fmt.Sprintf("(repeat (Give 1) %d)", len(d)+8), func() int { return cr.n }, nil
+		return cr, fmt.Sprintf("(repeat (Give 1) %s)", natT(len(d)+8)), func() int { return cr.n }, nil
 	case "half":
 		cr := &countReader{r: iotest.HalfReader(bytes.NewReader(d))}
-		return cr, fmt.Sprintf("(repeat Half %d)", len(d)+8), func() int { return cr.n }, nil
+		return cr, fmt.Sprintf("(repeat Half %s)", natT(len(d)+8)), func() int { return cr.n }, nil
 	case "dataerr":
 		// returns the final data together with io.EOF and re-chunks at 1024 bytes; io.ReadFull absorbs both
 		// (chunk independence is a theorem), so the model is evaluated with the empty script
@@ -126,6 +131,10 @@ func mkReader(kind string, data []byte, r *vx.Rng) (io.Reader, string, func() in
 		return cr, "[Give 1099511627776; Fault]", func() int { return cr.n }, nil
 	}
 	var evs []evt
+	if kind == "bigscript" {
+		c := &chunkReader{data: d, evs: append([]evt(nil), bigScript...)}
+		return c, evsT(bigScript), func() int { return c.pos }, c
+	}
 	n := r.Intn(9)
 	for i := 0; i < n; i++ {
 		switch {
@@ -139,7 +148,7 @@ func mkReader(kind string, data []byte, r *vx.Rng) (io.Reader, string, func() in
 			evs = append(evs, evt{kind: 'g', n: 1 + r.Intn(5)})
 		}
 	}
-	if r.Chance(1, 4) {
+	if r.Chance(1, 4) && len(d) <= 16384 {
 		evs = evs[:0]
 		for i := 0; i < len(d)+4; i++ {
 			evs = append(evs, evt{kind: 'g', n: 1 + r.Intn(3)})
@@ -169,6 +178,31 @@ type rop struct {
 	seek bool                                                     // needs a ReadSeeker
 	zero bool                                                     // collection of zero-size elements: never inflate
 	pfx  int                                                      // width of the leading prefix
+	// what the call claims to read with one ReadBytes: a fixed length argument (fixed) or the value of the prefix (sized)
+	fixed int64
+	sized bool
+}
+
+// claimed is the number of bytes the length argument / the length prefix in data announces for one ReadBytes call
+// (0 when there is none, when it is negative or when the prefix does not fit int: nothing may be allocated then).
+func (o rop) claimed(data []byte) uint64 {
+	switch {
+	case o.sized && len(data) >= o.pfx:
+		if v := prefixValue(data[:o.pfx]); v <= math.MaxInt64 {
+			return v
+		}
+	case o.fixed > 0:
+		return uint64(o.fixed)
+	}
+	return 0
+}
+
+func prefixValue(p []byte) uint64 {
+	var v uint64
+	for i := len(p) - 1; i >= 0; i-- {
+		v = v<<8 | uint64(p[i])
+	}
+	return v
 }
 
 var tkNames = []string{"(TNum U8)", "(TNum U16)", "(TNum U32)", "(TNum U64)", "(TNum I8)", "(TNum I16)", "(TNum I32)", "(TNum I64)", "TBool", "(TArr 32)", "(TArr 36)", "(TArr 38)"}
@@ -260,7 +294,7 @@ func ropT(t int) rop {
 }
 
 func ropBytes(n int64) rop {
-	return rop{kind: "bytes", term: joinT("RBytes", vx.Z(n)),
+	return rop{kind: "bytes", term: joinT("RBytes", vx.Z(n)), fixed: n,
 		run: func(r io.Reader, _ io.ReadSeeker) (func() string, error) {
 			b, err := stream.ReadBytes(r, int(n))
 			return func() string { return joinT("SVBytes", bytesT(b)) }, err
@@ -268,7 +302,7 @@ func ropBytes(n int64) rop {
 }
 
 func ropBytesSize(l serializer.SeriLengthPrefixType) rop {
-	return rop{kind: "bytessize" + lptT(l), term: joinT("RBytesSize", lptT(l)), pfx: lptSize(l),
+	return rop{kind: "bytessize" + lptT(l), term: joinT("RBytesSize", lptT(l)), pfx: lptSize(l), sized: true,
 		run: func(r io.Reader, _ io.ReadSeeker) (func() string, error) {
 			b, err := stream.ReadBytesWithSize(r, l)
 			return func() string { return joinT("SVBytes", bytesT(b)) }, err
@@ -276,7 +310,7 @@ func ropBytesSize(l serializer.SeriLengthPrefixType) rop {
 }
 
 func ropObject(n int64, c cbKind) rop {
-	return rop{kind: "object" + c.term(), term: joinT("RObject", vx.Z(n), c.term()),
+	return rop{kind: "object" + c.term(), term: joinT("RObject", vx.Z(n), c.term()), fixed: n,
 		run: func(r io.Reader, _ io.ReadSeeker) (func() string, error) {
 			v, err := stream.ReadObject(r, int(n), c.fn())
 			return func() string { return v.t }, err
@@ -284,7 +318,7 @@ func ropObject(n int64, c cbKind) rop {
 }
 
 func ropObjectSize(l serializer.SeriLengthPrefixType, c cbKind) rop {
-	return rop{kind: "objectsize" + lptT(l) + c.term(), term: joinT("RObjectSize", lptT(l), c.term()), pfx: lptSize(l),
+	return rop{kind: "objectsize" + lptT(l) + c.term(), term: joinT("RObjectSize", lptT(l), c.term()), pfx: lptSize(l), sized: true,
 		run: func(r io.Reader, _ io.ReadSeeker) (func() string, error) {
 			v, err := stream.ReadObjectWithSize(r, l, c.fn())
 			return func() string { return v.t }, err
@@ -351,7 +385,7 @@ func runRead(o rop, kind string, data []byte, r *vx.Rng) (readObs, string) {
 }
 
 func readCaseT(data []byte, evs string, o rop, ob readObs) string {
-	return joinT("CRead", bytesT(data), evs, o.term, ob.res, vx.Nat(ob.consumed), vx.N(ob.alloc))
+	return joinT("CRead", bytesT(data), evs, o.term, ob.res, natT(ob.consumed), vx.N(ob.alloc))
 }
 
 // ---------- stream write ops ----------
